@@ -14,6 +14,7 @@ impl -> spec : every repository font: selected record (Select), its subtable dec
 """
 import json
 import os
+import re
 
 import vlib
 from vlib import Violation
@@ -92,6 +93,50 @@ def _plant_generated(cases_path):
     return None
 
 
+def _line(e):
+    return json.dumps({"case": e["case"], "i": e["i"], "ev": e["ev"], "a": e["a"], "o": e["o"]}, separators=(",", ":")) + "\n"
+
+
+def _judge_balanced(ctx, trace, parts):
+    """Split the trace at case boundaries into parts of similar byte weight (events differ in size
+    by four orders of magnitude) and judge the parts with parallel JVMs."""
+    import concurrent.futures
+    groups, cur, last = [], [], None
+    with open(trace) as f:
+        for ln in f:
+            case = re.match(r'\{"case":"((?:[^"\\]|\\.)*)"', ln).group(1)     # the driver writes "case" first
+            if case != last and cur:
+                groups.append(cur)
+                cur = []
+            cur.append(ln)
+            last = case
+    if cur:
+        groups.append(cur)
+    bins = [[0, []] for _ in range(parts)]
+    for g in sorted(groups, key=lambda g: -sum(len(x) for x in g)):
+        b = min(bins, key=lambda b: b[0])
+        b[0] += sum(len(x) for x in g) + 2000 * len(g)
+        b[1].append(g)
+    files = []
+    for k, (_, gs) in enumerate(bins):
+        if not gs:
+            continue
+        fn = "%s.part%d" % (trace, k)
+        with open(fn, "w") as fo:
+            for g in gs:
+                fo.writelines(g)
+        files.append(fn)
+    total, mism = 0, []
+
+    def one(kf):
+        return vlib.judge_trace(ctx, "Trace_Cmap", "Trace_Cmap.cfg", kf[1], "judge.%d" % kf[0], timeout=1500, xmx="3g")
+    with concurrent.futures.ThreadPoolExecutor(max_workers=len(files)) as ex:
+        for res, mm in ex.map(one, list(enumerate(files))):
+            total += res.distinct - 1
+            mism.extend(mm)
+    return total, mism
+
+
 def run(ctx):
     binp = vlib.build_harness(BIN)
     cfg = "MC_Cmap_quick.cfg" if ctx.quick else "MC_Cmap_thorough.cfg"
@@ -154,16 +199,15 @@ def run(ctx):
                         events[n_ev] = e
                     else:
                         events[n_ev] = {"case": e["case"], "ev": e["ev"]}
-                    out.write(json.dumps(e, separators=(",", ":")) + "\n")
+                    out.write(_line(e))
                     n_ev += 1
         if planted is None:
             raise vlib.ToolError("no recorded batch with a mapped code: trace is vacuous")
         for x in planted:
             x["i"] = n_ev
-            out.write(json.dumps(x, separators=(",", ":")) + "\n")
+            out.write(_line(x))
             n_ev += 1
-    total, mism = vlib.judge_trace_parallel(ctx, "Trace_Cmap", "Trace_Cmap.cfg", trace, "judge",
-                                            parts=6 if ctx.quick else 10, timeout=1500, xmx="4g")
+    total, mism = _judge_balanced(ctx, trace, 6 if ctx.quick else 10)
     ctx.note("judge: %d events, %d mismatch lines" % (total, len(mism)))
     if total != n_ev:
         raise vlib.ToolError("judge consumed %d of %d events" % (total, n_ev))
@@ -214,7 +258,7 @@ def run(ctx):
                                         dict(m, source="recorded")))
     if big5["example"] is not None:
         leads = sorted(big5["leads"])
-        key = "conv|Big5|encOnly=%d|decOnly-not-a-big5-code=%d(leads %d..%d)|missing=%d" % (
+        key = "conv|Big5|encOnly=%d|decOnly-not-a-big5-code=%d|leads=%d..%d|missing=%d" % (
             big5["encOnly"], big5["decOnly"], leads[0], leads[-1], len(big5["missing"]))
         violations.append(Violation(key, "Big5 conversions: %d pairs only the encoder has, %d codes that are not Big5 codes are "
                                     "decoded (lead bytes %s..%s, e.g. %s), %d sample characters missing" %
